@@ -3,7 +3,17 @@ package main
 // splitmix64: every random choice of the harness derives from one state.
 type prng struct{ s uint64 }
 
-func newPrng(seed uint64) *prng { return &prng{s: seed*0x9E3779B97F4A7C15 + 0x1234567} }
+// The state is a hash of the seed (not a multiple of the increment: seeds k and k+1 would
+// otherwise give the same stream shifted by one draw, and the shards of a check would overlap).
+func newPrng(seed uint64) *prng {
+	z := seed + 0x1234567
+	z = (z ^ (z >> 30)) * 0xBF58476D1CE4E5B9
+	z = (z ^ (z >> 27)) * 0x94D049BB133111EB
+	z ^= z >> 31
+	z = (z ^ (z >> 33)) * 0xFF51AFD7ED558CCD
+	z ^= z >> 29
+	return &prng{s: z}
+}
 
 func (p *prng) next() uint64 {
 	p.s += 0x9E3779B97F4A7C15
